@@ -240,6 +240,8 @@ def gen_entries(rng, n, t0_us=None, pattern="increasing", binary_p=0.1, multilin
         msg = tag + b"%04d " % i + bytes(rng.choice(b"abcdefghij klmnop") for _ in range(rng.randint(0, 40)))
         if rng.random() < multiline_p:
             msg += b"\n  second line " + b"%d" % rng.randrange(1000) + (b"\n\ttab line" if rng.random() < 0.3 else b"")
+        if rng.random() < 0.1:
+            msg += rng.choice((b" ", b"  ", b"\t", b" \t "))       # stored text may end in blanks; it is the stored text that must be shown
         fields = [(b"MESSAGE", msg)]
         for nm in rng.sample(FIELD_NAMES, rng.randint(0, 6)):
             if nm == b"PRIORITY":
